@@ -431,7 +431,10 @@ func Execute(f *Family, sc *work.Scratch, tag string, units []*Unit, pack int) (
 		byProg[p.id] = exs
 		cfg := p.cfg
 		if f.ForceExtraImports {
-			cfg.ExtraImports = true
+			// (a unit marked _noextra keeps the CLI's default: no YAML code, no extra imports)
+			if _, no := p.units[0].Raw["_noextra"]; !no || pack > 1 {
+				cfg.ExtraImports = true
+			}
 		}
 		cfg.DefaultPackageName = p.id
 		cfg.DefaultOutputName = "root.go"
